@@ -606,14 +606,16 @@ Proof.
   set (s1 := upd (fun n => n <| hist := s_hist sn |> <| enabled_ver := s_ver sn |>) s).
   set (s2 := if cl then s1 else _).
   assert (E2 : nkeeps0 (nd s) (nd s2) /\ sr (nd s2) = sr (nd s) /\ others (nd s2) = others (nd s)).
-  { subst s2. destruct cl; [subst s1; cbn; repeat split; auto|]. Show.
+  { assert (T : nkeeps0 (nd s) (nd s1) /\ sr (nd s1) = sr (nd s) /\ others (nd s1) = others (nd s)).
+    { split; [apply nkeeps_0, nkeeps_los; reflexivity|split; reflexivity]. }
+    subst s2. destruct cl; [exact T|].
     destruct (get_entries (log (nd s1)) (Some (eidx (s_e0 sn))) (Some 2) None) as [|a [|b [|c r]]] eqn:Eg;
-      try (subst s1; cbn; repeat split; auto).
-    destruct (_ && _); [|subst s1; cbn; repeat split; auto].
-    subst s1. cbn. split; [|auto]. split.
-    - intros (H1 & H2 & H3). cbn. repeat split; auto. unfold delete_to.
+      try exact T.
+    destruct (_ && _); [|exact T].
+    split; [|split; reflexivity]. split.
+    - intros (H1 & H2 & H3). split; [|split; [exact H2|exact H3]]. cbn. unfold delete_to.
       destruct (_ <? _); [exact H1|now apply consec_skipn].
-    - intros _. cbn. unfold delete_to. cbn in Eg. unfold get_entries in Eg.
+    - intros _. cbn. unfold delete_to. unfold get_entries in Eg. cbn in Eg.
       destruct (eidx (s_e0 sn) <? first_idx (log (nd s))); [discriminate|].
       intros Hnil. rewrite Hnil in Eg. cbn in Eg. discriminate. }
   clearbody s2. destruct E2 as (E2 & Esr & Eoth).
